@@ -374,6 +374,9 @@ fn main() {
         let mut mism_scalar = 0u64;
         let mut first_scalar = String::new();
         let mut first_dispatch = String::new();
+        let mut mism_sse41 = 0u64;
+        let mut runs_sse41 = 0u64;
+        let mut first_sse41 = String::new();
         let mut acc = 0u64;
         let mut backing = vec![0i32; 128];
         for t in 0..4000u64 {
@@ -414,12 +417,31 @@ fn main() {
                     first_scalar = format!("t={t} off={off} value={} scalar={} spec={}", backing[align + j], b[align + j], spec[j]);
                 }
             }
+            // the SSE4.1 twin is never chosen by the dispatcher on a CPU with AVX2: run it directly
+            let mut c = backing.clone();
+            if verif::normalize_sse41(&mut c[align..align + len], off) {
+                runs_sse41 += 1;
+                if c[align..align + len] != spec[..] || c[..align] != backing[..align] || c[align + len..] != backing[align + len..] {
+                    mism_sse41 += 1;
+                    if first_sse41.is_empty() {
+                        first_sse41 = format!("t={t} align={align} len={len} off={off}");
+                    }
+                }
+            }
+            if a[..align] != backing[..align] || a[align + len..] != backing[align + len..] {
+                // a kernel must not touch anything outside the slice it was given
+                mism_dispatch += 1;
+                if first_dispatch.is_empty() {
+                    first_dispatch = format!("t={t} align={align} len={len} off={off} (wrote outside the slice)");
+                }
+            }
             let bytes: Vec<u8> = a[align..align + len].iter().flat_map(|v| v.to_le_bytes()).collect();
             acc = mix(acc, hash64(&bytes));
         }
         println!("N dispatch-result-hash {acc:016x}");
         println!("NSPEC dispatch mismatches={mism_dispatch} {first_dispatch}");
         println!("NSPEC scalar mismatches={mism_scalar} {first_scalar}");
+        println!("NSPEC sse41 mismatches={mism_sse41} runs={runs_sse41} {first_sse41}");
 
         // ---- kernels: decode_direct_bits on caller supplied state (asm vs portable across builds)
         let mut r = Rng::new(mix(seed, 0xC14_BBBB));
